@@ -57,14 +57,17 @@ pub fn decompress_patch_data(data: &[u8], spec: &ESpec) -> PatchArchiveResult<Ve
         ESpec::BlockTable { chunks } => {
             // Complex block-based compression
             let mut output = Vec::new();
-            let mut offset = 0;
+            let mut offset = 0usize;
 
             for chunk in chunks {
                 // Determine range for this chunk
                 let chunk_end = if let Some(size_spec) = &chunk.size_spec {
-                    let size = size_spec.size as usize;
+                    // Sizes and counts come from the spec string: they can exceed any buffer
+                    let size = usize::try_from(size_spec.size).unwrap_or(usize::MAX);
                     let count = size_spec.count.unwrap_or(1) as usize;
-                    (offset + size * count).min(data.len())
+                    offset
+                        .saturating_add(size.saturating_mul(count))
+                        .min(data.len())
                 } else {
                     // Final chunk with * specifier
                     data.len()
@@ -112,7 +115,7 @@ pub fn get_compression_at_offset(spec: &ESpec, offset: u64) -> &ESpec {
                 if let Some(size_spec) = &chunk.size_spec {
                     let size = size_spec.size;
                     let count = size_spec.count.unwrap_or(1) as u64;
-                    let chunk_end = current_offset + size * count;
+                    let chunk_end = current_offset.saturating_add(size.saturating_mul(count));
 
                     if offset >= current_offset && offset < chunk_end {
                         return &chunk.spec;
